@@ -905,19 +905,34 @@ class Hist:
         if not add_prefix or rng.random() < 0.3:
             kw['add_prefix'] = add_prefix
         R = base.real
+        model_this, model_other = this_conn, other_conn
+
+        def shaped(labels, owner):
+            # Sequence[Label]: the list itself, a tuple, or the very list object a circuit reported (c.inputs / c.outputs)
+            r = rng.random()
+            if r < 0.2:
+                return tuple(labels)
+            if r < 0.45 and labels:
+                for own in (owner.inputs, owner.outputs):
+                    if list(own) == list(labels):
+                        self.res.stats.probes.bump('connector-argument-is-a-circuits-own-list')
+                        return own
+            return labels
+
+        a_this, a_other = shaped(model_this, R), shaped(model_other, other_real)
         if entry == 'connect_circuit':
-            fn = lambda: R.connect_circuit(other_real, this_conn, other_conn, right_connect=right, **kw)
+            fn = lambda: R.connect_circuit(other_real, a_this, a_other, right_connect=right, **kw)
         elif entry == 'connect_left':
-            fn = lambda: R.connect_left(other_real, this_conn, **kw)
+            fn = lambda: R.connect_left(other_real, a_this, **kw)
         elif entry == 'connect_right':
-            fn = lambda: R.connect_right(other_real, other_conn, **kw)
+            fn = lambda: R.connect_right(other_real, a_other, **kw)
         elif entry == 'connect_inputs':
             fn = lambda: R.connect_inputs(other_real, **kw)
         elif entry == 'extend_circuit':
             if ext_mode == 'defaults':
                 fn = lambda: R.extend_circuit(other_real, right_connect=right, **kw)
             else:
-                fn = lambda: R.extend_circuit(other_real, this_connectors=this_conn, other_connectors=other_conn,
+                fn = lambda: R.extend_circuit(other_real, this_connectors=a_this, other_connectors=a_other,
                                               right_connect=right, **kw)
                 self.res.stats.probes.bump(f'extend_circuit:{ext_mode}')
         else:
